@@ -201,6 +201,9 @@ func C05EdiHier() {
 	}
 	decl := &FileDecl{SegDelim: "~", ElemDelim: "*", SegDecls: top}
 	zz.Assume((&ediValidateCtx{}).validateFileDecl(decl) == nil)
+	if zz.Param("FREEZE", 0) == 1 {
+		zz.Freeze(decl) // C14: the validated declarations are shared between goroutines
+	}
 
 	n := zz.NondetInt("len", 0, L)
 	units := make([]byte, 0, L)
